@@ -244,6 +244,7 @@ pub fn c12(ctx: &mut Ctx) {
 
 /// C13: single-threaded BFS visits by distance and reports shortest witnesses.
 pub fn c13(ctx: &mut Ctx) {
+    c13_large(ctx);
     for (gi, (n, inits, edges, bound)) in graphs(seed(), thorough()).into_iter().enumerate() {
         for (pi, props) in prop_menu().into_iter().enumerate().take(3) {
             let g = mk(n, &inits, &edges, bound, props.clone());
@@ -311,5 +312,54 @@ pub fn wide_frontier(ctx: &mut Ctx, which: &str) {
         let want = 2 * n as usize + 1;
         ctx.check(&case, &format!("{}-wide-frontier-states-lost", strat), &["OND.check_block.ensures.partition", "CB.check_block.ensures.partition"], visited == want && unique == want && total >= unique,
             format!("visited={} unique={} total={}", visited, unique, total), format!("visited={} unique={}", want, want));
+    }
+}
+
+
+/// C13 beyond one work block (1500 states): a bounded grid, BFS must evaluate by non-decreasing
+/// distance; and a root with many children each with one grandchild: the witness one step from the
+/// root must be reported with one transition wherever it sits in the frontier.
+#[derive(Clone)]
+pub struct Grid { pub n: u32, pub bad: Option<(u32, u32)> }
+impl stateright::Model for Grid {
+    type State = (u32, u32);
+    type Action = u8;
+    fn init_states(&self) -> Vec<(u32, u32)> { vec![(0, 0)] }
+    fn actions(&self, s: &(u32, u32), a: &mut Vec<u8>) { if s.0 + 1 < self.n { a.push(0); } if s.1 + 1 < self.n { a.push(1); } }
+    fn next_state(&self, s: &(u32, u32), a: u8) -> Option<(u32, u32)> { Some(if a == 0 { (s.0 + 1, s.1) } else { (s.0, s.1 + 1) }) }
+    fn properties(&self) -> Vec<stateright::Property<Self>> {
+        vec![stateright::Property::always("not bad", |m: &Grid, s: &(u32, u32)| Some(*s) != m.bad)]
+    }
+}
+#[derive(Clone)]
+pub struct Star { pub n: u32, pub target: u32 }
+impl stateright::Model for Star {
+    type State = u32;
+    type Action = u32;
+    fn init_states(&self) -> Vec<u32> { vec![0] }
+    fn actions(&self, s: &u32, a: &mut Vec<u32>) { if *s == 0 { a.extend(1..=self.n); } else if *s <= self.n { a.push(*s + self.n); } }
+    fn next_state(&self, _s: &u32, a: u32) -> Option<u32> { Some(a) }
+    fn properties(&self) -> Vec<stateright::Property<Self>> {
+        // witnessed by child `target` (1 transition) and by the grandchild of every other child (2 transitions)
+        vec![stateright::Property::sometimes("hit", |m: &Star, s: &u32| *s == m.target || (*s > m.n && *s != m.target + m.n))]
+    }
+}
+pub fn c13_large(ctx: &mut Ctx) {
+    use stateright::{Checker, Model};
+    let case = "c13.grid:45x45".to_string();
+    if ctx.want(&case) {
+        let (rec, acc) = stateright::StateRecorder::new_with_accessor();
+        let _c = Grid { n: 45, bad: None }.checker().threads(1).visitor(rec).spawn_bfs().join();
+        let order = acc();
+        let bad = order.windows(2).position(|w| w[0].0 + w[0].1 > w[1].0 + w[1].1);
+        ctx.check(&case, "c13-bfs-order-beyond-one-block", &["CB.check_block.ensures.eval-order", "CB.check_block.ensures.queue-order"], bad.is_none() && order.len() == 45 * 45,
+            format!("{} states; first inversion at {:?}: {:?}", order.len(), bad, bad.map(|i| (order[i], order[i + 1]))), "2025 states evaluated in non-decreasing distance".into());
+    }
+    for target in [1u32, 700, 1499, 1500, 1501, 1502, 2000] {
+        let case = format!("c13.star:target={}", target);
+        if !ctx.want(&case) { continue; }
+        let c = Star { n: 2000, target }.checker().threads(1).spawn_bfs().join();
+        let len = c.discovery("hit").map(|p| p.into_states().len());
+        ctx.check(&case, "c13-not-shortest-witness-beyond-one-block", &["CB.lemma.shortest_witness"], len == Some(2), format!("witness path has {:?} states", len), "2 states (1 transition)".into());
     }
 }
